@@ -459,12 +459,29 @@ func TestC17(t *testing.T) {
 			if msg := checkSorted(tab, got, []hx.Order{o}); msg != "" {
 				t.Fatalf("sort on the enum column violates the declared order: %s\n%s", msg, full())
 			}
+			// the view's Slice() tells the same as its ItemAt
+			if ev, err := res.EnumView("e"); err == nil {
+				sl := ev.Slice()
+				ec := got.MustCol("e")
+				if len(sl) != ec.Len() {
+					t.Fatalf("EnumView.Slice() has %d entries, the column %d\n%s", len(sl), ec.Len(), full())
+				}
+				for r := range sl {
+					if (sl[r] == nil) != (ec.S[r] == nil) || (sl[r] != nil && *sl[r] != *ec.S[r]) {
+						t.Fatalf("EnumView.Slice()[%d] = %s but ItemAt(%d) = %s\n%s", r, ptrStr(sl[r]), r, ptrStr(ec.S[r]), full())
+					}
+				}
+			}
 		}
 		high := false
 		for _, k := range ranks {
 			if k >= 64 {
 				high = true
 			}
+		}
+		// whatever was done above, the constructed frame still reads as constructed (no value reported as another string)
+		if after, err := hx.Observe(qf); err != nil || hx.Diff(wantT, after) != "" {
+			t.Fatalf("the frame no longer reads back as constructed after %s: %v %s\n%s", opDesc, err, hx.Diff(wantT, after), full())
 		}
 		nontrivial := (declared && size >= 64 && high) || (len(distinct) >= 254 && len(distinct) <= 257) || (size >= 254 && size <= 257)
 		evC17.Case(nontrivial, func() string { return full() }, "path:"+path, "op:"+op, fmt.Sprintf("declared=%v", declared), fmt.Sprintf("size=%d", size))
